@@ -122,6 +122,10 @@ def run(ck: Check) -> None:
         ck.run("RX.3", "values the rules read as sequences are not half-consumed iterators", lambda: rule_one_shot_iterators(ck, "RX.3", files))
 
 
+# files a property depends on beyond its anchors (found when a breaking change there was reported by another property only)
+EXTRA_FILES = {"C07": ["skepticoin/blockstore.py"], "C12": ["skepticoin/blockstore.py"], "C03": ["skepticoin/blockstore.py"]}
+
+
 def _anchor_files(prop: str) -> List[str]:
     import json
     import os
@@ -129,5 +133,5 @@ def _anchor_files(prop: str) -> List[str]:
     for line in open(os.path.join(VERIF_ROOT, "properties.jsonl")):
         d = json.loads(line)
         if d["id"] == prop:
-            return [f for f in d.get("anchors", {}).get("files", []) if f.endswith(".py")]
+            return [f for f in d.get("anchors", {}).get("files", []) if f.endswith(".py")] + EXTRA_FILES.get(prop, [])
     return []
